@@ -86,7 +86,7 @@ def corrupt(rng, spec):
 class C01(Prop):
     id = "C01"
     lean_module = "ProductMD.Properties.C01"
-    quick_budget = 1200
+    quick_budget = 900
     thorough_budget = 20000
     rule = ("generated compose descriptions (all release/compose types, labels, layered/internal, forests to depth 4 with all variant "
             "types, layered-product releases, dashed top-level UIDs, child arches within the parent's, any subset of the 14 categories, "
@@ -95,13 +95,11 @@ class C01(Prop):
             "model bytes, real snapshot == model loads (own text and real text), same refusal class for corrupted descriptions; "
             "non-trivial = written successfully")
     assumptions = ["json.load inverts json.dump on the documents the writer produces (stdlib; exercised by every case)",
-                   "typed model: attributes hold values of the validated types; forest as built by add() (child.parent = container node)",
+                   "typed model: attributes hold values of the validated types; the object graph is a forest whose parent pointers mirror "
+                   "the dicts (every object handed to add() once, while unplaced: the Fresh histories of C11). An object placed twice "
+                   "through a stale parent pointer (F26) is written by the library but is not a forest: corpus case, known finding",
                    "str.lower modelled on ASCII only (release type case-fold; exact for every type in RELEASE_TYPES)"]
-    partial = {"C01_readback": "hypotheses WellKeyed (dict keys = ids, no key twice: what add() builds) and UidsDistinct (decidable) are explicit; "
-                               "that a successful serialize of a WellKeyed forest implies UidsDistinct is argued informally, only "
-                               "C01_duplicate_uids_agree (conflicting duplicates are refused) is proved",
-               "C01_fixpoint": "same hypotheses as C01_readback",
-               "C01_bytes": "same hypotheses; json.load inverting the printer is the explicit hypothesis hjson"}
+    partial = {}      # the only hypothesis left (WellKeyed) is established by add(): C01_api_wellkeyed / C01_api_roundtrip
 
     def __init__(self):
         self._cache = {}
@@ -133,6 +131,20 @@ class C01(Prop):
             ci = F.build(a["spec"], raw=a.get("raw", False))
         except Exception as e:  # noqa
             return {"build": checklib.err_class(e)}
+        if a.get("alias_top") is not None:
+            # F26 region: an already placed child is handed to ci.variants.add() again (accepted against its stale parent)
+            def find(c, uid):
+                for v in c.variants.values():
+                    if v.uid == uid:
+                        return v
+                    r = find(v, uid)
+                    if r is not None:
+                        return r
+                return None
+            try:
+                ci.variants.add(find(ci.variants, a["alias_top"]))
+            except Exception as e:  # noqa
+                return {"build": checklib.err_class(e)}
         tmp = None
         try:
             if a.get("file"):
@@ -184,6 +196,8 @@ class C01(Prop):
     # ---- model side
     def model_requests(self, case):
         a = case["args"]
+        if a.get("alias_top") is not None:
+            return []           # not a forest: outside the tree model (the arena model of C11 covers it)
         spec = F.strip_parent(a["spec"])
         reqs = [{"op": "composeinfo_dumps", "args": {"spec": spec}},
                 {"op": "composeinfo_serialize", "args": {"spec": spec}}]
@@ -236,6 +250,11 @@ class C01(Prop):
         if not d or "ok" not in d:
             return None                                    # the library did not agree to write this description
         want = F.canon(F.norm(a["spec"]))
+        if a.get("alias_top") is not None:
+            # the description actually written: the snapshot taken after dumps() (the alias sits at the top level too)
+            want = F.canon(F.norm(F.strip_parent(real_out["after"])))
+            for v, p in F.walk(want):
+                pass
         lo = real_out.get("loads")
         if not lo or "ok" not in lo:
             return {"observed": {"loads": lo}, "required": "the written text loads again", "kind": "reload-refused"}
@@ -253,7 +272,7 @@ class C01(Prop):
             return {"observed": first_text_diff(d["ok"], rd["ok"]), "required": "second dumps() byte-identical to the first", "kind": "bytes-differ"}
         # writing must not alter the description itself beyond the documented is_layered forcing
         aft = real_out.get("after")
-        if aft is not None and not a.get("raw"):
+        if aft is not None and not a.get("raw") and a.get("alias_top") is None:
             before = F.canon(a["spec"])
             for v, _ in F.walk(before):
                 if v["type"] == F.LP and v["release"] is not None:
@@ -376,7 +395,7 @@ def first_text_diff(a, b):
 PROP = C01()
 
 MANIFEST = dict(
-    technique="Lean 4 proof over a typed model of the composeinfo writer/reader (nested-inductive variant forest, uid-keyed flattening with the setdefault refusal, fuel-based rebuild with every add()/validate() of the code), validators taken from the rule lists regenerated from the source; model tied by byte-exact differential correspondence (dumps text, parsed document, loads snapshot, second dump, refusal classes); round-trip oracle on the real library",
-    text="C01_readback: serialize ci = ok j -> deserialize j = ok (norm ci) for forests of any depth and width, any arches and paths, layered-product releases, base product, label/final; C01_fixpoint: serialize (norm ci) = ok j (same document), C01_bytes: dumps -> parse -> loads -> dumps gives the same text (json.load inverting the printer is an explicit hypothesis); C01_norm_id/C01_norm_sections/C01_norm_variant/C01_stored_path: norm is the identity on normal objects and performs only the documented normalisations. Hypotheses (explicit, decidable): dict keys are the ids with no key twice (what add() builds) and all UIDs distinct; C01_duplicate_uids_agree proves the writer refuses conflicting duplicates, C01_keyed_by_uid_witness shows the key convention is needed. Lemmas about the generated validators (UID alignment, release type table, blank release/base product refused, empty label refused) stop compiling when the validator is removed.",
-    note="Modelled, not verified: json parser assumed to invert the printer (hypothesis of C01_bytes, exercised on every case); typed attribute domain (fields hold values of the validated types; bool respin, non-string paths are outside); forest as built by add(); str.lower on ASCII. Header versions < 1.0 are refused by the model reader (gates are in place for C05). 'successful serialize implies UidsDistinct' is argued in docs/mutants_C01.md, not proved.",
+    technique="Lean 4 proof over a typed model of the composeinfo writer/reader (nested-inductive variant forest, uid-keyed flattening with the setdefault refusal, fuel-based rebuild with every add()/validate() of the code), validators taken from the rule lists regenerated from the source; tie to the arena model of add() (C11) for the key convention; model tied by byte-exact differential correspondence (dumps text, parsed document, loads snapshot, second dump, refusal classes); round-trip oracle on the real library",
+    text="C01_readback: serialize ci = ok j -> deserialize j = ok (norm ci) for forests of any depth and width, any arches and paths, layered-product releases, base product, label/final; C01_fixpoint: serialize (norm ci) = ok j (same document), C01_bytes: dumps -> parse -> loads -> dumps gives the same text (json.load inverting the printer is an explicit hypothesis); C01_norm_id/C01_norm_sections/C01_norm_variant/C01_stored_path: norm is the identity on normal objects and performs only the documented normalisations. Only hypothesis: dict keys are the ids with no key twice (WellKeyed), and C01_api_wellkeyed proves it for the forest built by ANY history of default-key add() calls (arena model of C11), so C01_api_roundtrip has no forest hypothesis. C01_written_uids_distinct: a written well-keyed forest has pairwise different UIDs (the writer's 'Variant UID already exist' refusal, incl. the dashed top-level collision F14). Lemmas about the generated validators (UID alignment, dashless uid = id at top level, non-empty id, release type table, blank release/base product refused, empty label refused) stop compiling when the validator is removed.",
+    note="Modelled, not verified: json parser assumed to invert the printer (hypothesis of C01_bytes, exercised on every case); typed attribute domain (fields hold values of the validated types; bool respin, non-string paths are outside); the object graph is a forest whose parent pointers mirror the dicts (an object placed twice via a stale parent pointer, F26, is written by the library and re-read without the alias: known finding); str.lower on ASCII. Header versions < 1.0 are refused by the model reader (C05).",
     ref="7/C01")
